@@ -230,8 +230,12 @@ def main(tier, seed):
     from engine.report import load_known
 
     rep = Report(PID, tier, seed, "exploration")
-    rep.explanation = "BOUNDED only: run-time contracts of the mesh status functions against graph oracles on permuted / flipped / renumbered solids and derived defective meshes"
-    rep.assume("no proof: set-based while loops, np.unique, KD-tree and float ray casting are outside the VC generator")
+    rep.explanation = ("BOUNDED: run-time contracts of the mesh status functions against graph oracles on permuted / flipped / renumbered solids and derived defective meshes; "
+                       "the loop-free get_open_edges is additionally checked against its definition (checks/c16_struct.py)")
+    rep.assume("no proof of the set-merging loops, the KD-tree pair search and the floating-point ray casting: outside the VC generator")
+    from checks import c16_struct
+
+    sfails = c16_struct.run(rep)
     n, d, bad = run_all(seed, tier)
     known = [k for k in load_known() if k["property"] == PID and k.get("status") == "known"]
     bad2 = []
@@ -246,6 +250,12 @@ def main(tier, seed):
                 "5 solids (box, prism, tetrahedron, L-shape, random hull) x 6 variants (thorough: 40) + open / disconnected / interpenetrating derivatives", n, d,
                 "random permutations, flip subsets (40% of faces), cyclic rotations, vertex renumberings; distinct = meshes", [dict(solid="L-shape", variant=3, flipped=6)],
                 failures=len(bad2))
-    for c, m_ in bad2[:3]:
-        rep.violation(f"standin.mesh-contracts[{c.get('solid')}]", {"case": c, "native_result": m_, "script": REPLAY.format(seed=seed)})
+    for f in sfails:
+        if bad2:
+            rep.violation(f["name"], {"why": f["why"], "case": bad2[0][0], "native_result": bad2[0][1], "script": REPLAY.format(seed=seed)})
+        else:
+            rep.violation(f["name"], {"why": f["why"], "solver_output": f["why"]}, found_input=False)
+    if not sfails:
+        for c, m_ in bad2[:3]:
+            rep.violation(f"standin.mesh-contracts[{c.get('solid')}]", {"case": c, "native_result": m_, "script": REPLAY.format(seed=seed)})
     return rep.finish()
